@@ -97,8 +97,18 @@ class Reach:
             self.active = False
 
     def get(self, suffix: str) -> int:
-        """Sum of counts of functions whose key ends with ``suffix``."""
-        return sum(v for k, v in self.counts.items() if k.endswith(suffix))
+        """Sum of counts of functions matching the anchor ``file.py:Class.method``: the file and the method name must match,
+        the class need not (a method may legitimately move to a base class or a helper class of the same module)."""
+        if ":" not in suffix:
+            return sum(v for k, v in self.counts.items() if k.endswith(suffix))
+        fpart, qual = suffix.rsplit(":", 1)
+        meth = qual.rsplit(".", 1)[-1]
+        total = 0
+        for k, v in self.counts.items():
+            kf, kq = k.rsplit(":", 1)
+            if kf.endswith(fpart) and (kq == meth or kq.endswith("." + meth)):
+                total += v
+        return total
 
 
 REACH = Reach()
